@@ -13,7 +13,7 @@ from symex.harness import Case, Twin
 from symex.larr import LArr
 
 PROPERTY = "C18"
-FUNCTIONS = ["ibldsp.fourier.ns_optim_fft", "ibldsp.fourier.convolve", "ibldsp.fourier.freduce", "ibldsp.fourier.fexpand",
+FUNCTIONS = ["ibldsp.fourier.bp / _freq_filter", "ibldsp.fourier.ns_optim_fft", "ibldsp.fourier.convolve", "ibldsp.fourier.freduce", "ibldsp.fourier.fexpand",
              "ibldsp.fourier.fscale", "ibldsp.fourier._freq_vector", "ibldsp.utils.fcn_cosine", "ibldsp.utils._fcn_extrap"]
 ASSUMPTIONS = [
     "irfft(rfft(a)*rfft(b)) is modelled as the circular convolution of period P = the length irfft actually returns (n if passed, else 2*(m-1)); "
@@ -21,6 +21,8 @@ ASSUMPTIONS = [
     "spectra X are opaque complex values with CONJ an uninterpreted involution; Hermitian symmetry X[n-k]=conj X[k] is assumed for the reduce/expand round trip",
     "np.cos is an uninterpreted function constrained by cos(0)=1, cos(pi)=-1, range [-1,1] and monotone decrease on [0,pi] instantiated on the terms of the path",
     "floats as exact reals",
+    "band-pass: np.fft.fft is replaced by a probe returning a flat unit spectrum and np.fft.ifft by the identity, so that the real bp/_freq_filter "
+    "returns the multiplier it applies per frequency bin (sampling interval symbolic in [1/64, 4], four concrete corner sets incl. overlapping transition bands, ns in {5,6,8,9}, axis 0 of a 2-D array and 1-D)",
 ]
 OUTSIDE = ["dft/dft2 == FFT and lp(x)+hp(x)==x in the time domain (FFT numerics: not encodable)",
            "ns_optim_fft above 2^24 (the function's finite table)", "convolve with nsx+nsw above the stated bound"]
@@ -108,6 +110,9 @@ def _irfft(S, n=None, axis=-1, **k):
     return arrays.mk(vals, shape=shape)
 
 
+PROBE_SPECTRUM = False
+
+
 def setup():
     import ibldsp.fourier as f
     import ibldsp.utils as u
@@ -122,6 +127,20 @@ def setup():
     class _FFT:
         rfft = staticmethod(_rfft)
         irfft = staticmethod(_irfft)
+
+        # probe used by case_bandpass: a flat unit spectrum in, identity out -> the filter returns the very multiplier
+        # it applies to each frequency bin
+        @staticmethod
+        def fft(x, axis=-1, **kw):
+            if not PROBE_SPECTRUM:
+                raise core.Unsupported("np.fft.fft on symbolic data")
+            return arrays.mk([1.0] * int(np.prod(x.shape)), shape=tuple(x.shape), tag=np.dtype(float))
+
+        @staticmethod
+        def ifft(x, axis=-1, **kw):
+            if not PROBE_SPECTRUM:
+                raise core.Unsupported("np.fft.ifft on symbolic data")
+            return x
 
         def __getattr__(self, n):
             return getattr(np.fft, n)
@@ -345,9 +364,38 @@ def case_filters(ctx, b0n, b1n):
     ctx.oblige("bp_first_factor_is_hp", all_([core.eq(bp_hp[i], hp[i]) for i in range(2)]))
 
 
+def case_bandpass(ctx, ns, corners, two_d):
+    """the multiplier the real band-pass applies to each frequency bin (read through a flat-spectrum FFT probe) is the
+    product of the high-pass response at corners[0:2] and the low-pass response at corners[2:4], mirrored over the
+    negative frequencies; sampling interval symbolic, corners concrete (including overlapping transition bands)"""
+    global PROBE_SPECTRUM
+    import ibldsp.fourier as f
+    si = ctx.real("si", Fraction(1, 64), 4)
+    PROBE_SPECTRUM = True
+    try:
+        ts = np.zeros((ns, 2)) if two_d else np.zeros(ns)
+        got = ctx.call("bp", f.bp, ts, si, list(corners), axis=0 if two_d else None)
+    finally:
+        PROBE_SPECTRUM = False
+    if not ctx.oblige("bp_keeps_the_shape", tuple(got.shape) == tuple(ts.shape), detail={"shape": str(got.shape)}):
+        return
+    fsc = f.fscale(ns, si=si, one_sided=True)
+    hp = f._freq_vector(fsc, list(corners[0:2]), typ="hp")
+    lp = f._freq_vector(fsc, list(corners[2:4]), typ="lp")
+    for k in range(ns):
+        kk = k if k <= ns // 2 else ns - k
+        exp = hp[kk] * lp[kk]
+        for col in ((0, 1) if two_d else (None,)):
+            g = got[k] if col is None else got[k, col]
+            ctx.oblige("bandpass_multiplier_is_hp_times_lp", core.eq(g, exp), detail={"bin": k, "corners": list(corners), "got": g, "expected": exp})
+
+
 def cases(tier):
     b = bounds(tier)
     cs = []
+    for name, corners in (("overlap", (1, 4, 2, 6)), ("separate", (1, 2, 3, 4))) if tier == "quick" else (("overlap", (1, 4, 2, 6)), ("separate", (1, 2, 3, 4)), ("touching", (1, 3, 3, 5)), ("nested", (1, 8, 2, 4))):
+        for ns, two_d in ((6, False), (5, True)) if tier == "quick" else ((6, False), (5, True), (9, False), (8, True)):
+            cs.append(Case(f"bandpass_{name}_ns{ns}{'_2d' if two_d else ''}", "case_bandpass", {"ns": ns, "corners": list(corners), "two_d": two_d}, timeout_s=1500))
     # ns_optim in slices (each slice forks over the table entries it touches)
     edges = [1, 1000, 100000, 2000000, 14155776, B_OPTIM]
     for lo, hi in zip(edges[:-1], edges[1:]):
@@ -377,6 +425,8 @@ def twins(tier):
         Twin("fscale_parity", m, "-fsc[slice(-2 + (ns % 2), 0, -1)]", "-fsc[slice(-1, 0, -1)]", ["fscale_twosided_si1_1"]),
         Twin("freduce_len", m, "siz[axis] = int(np.floor(siz[axis] / 2 + 1))", "siz[axis] = int(np.floor((siz[axis] + 1) / 2))", ["reduce_expand_1d"]),
         Twin("optim_searchsorted_right", m, "return sz[np.searchsorted(sz, ns)]", "return sz[np.searchsorted(sz, ns, side='right')]", ["ns_optim_1_1000"]),
+        Twin("bp_uses_hp_twice", m, '_freq_vector(f, b[0:2], typ="hp") * _freq_vector(f, b[2:4], typ="lp")', '_freq_vector(f, b[0:2], typ="hp") * _freq_vector(f, b[2:4], typ="hp")', ["bandpass_separate_ns6"]),
+        Twin("bp_difference_of_highpasses", m, '_freq_vector(f, b[0:2], typ="hp") * _freq_vector(f, b[2:4], typ="lp")', '_freq_vector(f, b[0:2], typ="hp") - _freq_vector(f, b[2:4], typ="hp")', ["bandpass_overlap_ns6"]),
         Twin("lp_is_hp", m, "        return 1 - filc", "        return filc", ["filters_1_2"]),
     ]
 
@@ -384,6 +434,24 @@ def twins(tier):
 def replay(case, params, cex):
     m = cex["model"]
     ob = cex["obligation"]
+    if case.startswith("bandpass"):
+        ns, corners, two_d = params["ns"], params["corners"], params["two_d"]
+        return f"""
+import ibldsp.fourier as f
+from fractions import Fraction
+ns, corners, si = {ns}, {corners}, float(Fraction({str(m['si'])!r}))
+x = np.zeros(({ns}, 2)) if {two_d} else np.zeros(ns)
+x[0] = 1                                   # unit impulse: flat unit spectrum
+y = f.bp(x, si, corners, axis=0 if {two_d} else None)
+mult = np.fft.fft(y, axis=0).real
+fsc = f.fscale(ns, si=si, one_sided=True)
+exp1 = f._freq_vector(fsc, corners[0:2], typ='hp') * f._freq_vector(fsc, corners[2:4], typ='lp')
+exp = np.array([exp1[k if k <= ns // 2 else ns - k] for k in range(ns)])
+if {two_d}: exp = exp[:, None] * np.ones((1, 2))
+print(si, mult, exp)
+if mult.shape != exp.shape or not np.allclose(mult, exp, atol=1e-9): reproduced(f'band-pass gain differs from hp x lp: got {{mult.ravel().tolist()}} expected {{exp.ravel().tolist()}}')
+not_reproduced()
+"""
     if case.startswith("ns_optim"):
         return f"""
 import ibldsp.fourier as f
